@@ -55,6 +55,9 @@ Theorem negative_width_needed :
   encode (mkLayer [] RNormal MNormal None true false false false false 0 0 0 None (-1) 1 0 []) = Panic 3.
 Proof. exact negative_width_panics. Qed.
 
+Theorem title_u32_needed : forall L, N.of_nat (List.length (title L)) = 4294967296 -> firstn 4 (enc_header L) = [0; 0; 0; 0].
+Proof. exact title_length_wraps. Qed.
+
 (* ---------------------------------------------------------------- the fixed defect *)
 (* before the fix: an invisible cell with an extra flag, followed by a visible cell, made the loader fail … *)
 Theorem before_fix_refuted :
